@@ -54,6 +54,23 @@ CLAIMED.update({
     note='Trusted: shim, z3, np.digitize model. Angles exclude the exact gate values as the property states.',
     ref='DESIGN.md section 8 C20'),
 })
+CLAIMED.update({
+ 'C03': dict(
+    technique='symbolic execution of assigns_to_counts/_transitions_helper with symbolic state ids; COO contract stub; z3 LIA validity',
+    text='For every trajectory-length vector in the bound (incl. lengths below the lag), every lag, sliding on/off, ragged and padded '
+         'input, explicit and inferred state count, the real counting code is executed on symbolic state ids and z3 proves that entry (i,j) '
+         'equals the number of lagged pairs inside one trajectory, the matrix is square and the total is sum max(0,len-lag).',
+    note='Trusted: shim, z3, the SymCOO contract (duplicates summed; scipy doc). Additivity/reordering follow from the proved sum formula.',
+    ref='DESIGN.md section 8 C03'),
+ 'C11': dict(
+    technique='symbolic execution of trim_disconnected with symbolic counts/threshold; SCC stub = symbolic Warshall closure; z3 validity vs an independent closure oracle',
+    text='trim_disconnected runs on symbolic count matrices (n<=3, thorough 4) and a symbolic threshold, forking over the component '
+         'structure; z3 proves the kept set is a maximal strongly connected class of maximal population, the trimmed matrix keeps exactly the '
+         'counts between kept states (both variants), the mapping is the order-preserving bijection and its inverse, container type and the '
+         "caller's matrix are preserved.",
+    note='Trusted: shim, z3, connected_components contract (partition into SCCs; numbering unspecified). COO only among sparse formats.',
+    ref='DESIGN.md section 8 C11'),
+})
 PENDING = 'check not built yet in this session (work in progress; see DESIGN.md section 8 for the plan)'
 NA = {}
 
